@@ -329,9 +329,14 @@ class World:
 
     def finish(s, st, tid):
         outs = []
-        for st2 in s.M.run(st, tid):
-            th = st2.threads[tid]
-            outs.append((st2, th.result))
+        saved = s.M.task_mode
+        if tid == 'S': s.M.task_mode = True        # observer thread: its scratch runs are never preempted
+        try:
+            for st2 in s.M.run(st, tid):
+                th = st2.threads[tid]
+                outs.append((st2, th.result))
+        finally:
+            s.M.task_mode = saved
         return outs
 
     def dispatch(s, st, tid, callee, args):
